@@ -82,23 +82,24 @@ def _nets(E):
             return s.l(s.f(s.pool(s.m2(torch.relu(s.m1(x))))))
     class GNet(nn.Module):
         """interpreter of a node list (see GSPECS); layer i is the sub-module `n<i>`"""
-        def __init__(s, nodes, out):
+        def __init__(s, nodes, out, dim=2):
             super().__init__()
             s.nodes, s.out = nodes, out
             ch = gnet_channels(nodes)
+            Conv, BN, Pool = (nn.Conv1d, nn.BatchNorm1d, nn.AdaptiveAvgPool1d) if dim == 1 else (nn.Conv2d, nn.BatchNorm2d, nn.AdaptiveAvgPool2d)
             for i, nd in enumerate(nodes):
                 k = nd[0]
                 if k == 'conv':
                     o = nd[4]
-                    setattr(s, 'n%d' % i, nn.Conv2d(ch[nd[1]], nd[2], nd[3], padding=nd[3] // 2, groups=o.get('groups', 1), stride=o.get('stride', 1)))
+                    setattr(s, 'n%d' % i, Conv(ch[nd[1]], nd[2], nd[3], padding=nd[3] // 2, groups=o.get('groups', 1), stride=o.get('stride', 1)))
                 elif k == 'lin':
                     setattr(s, 'n%d' % i, nn.Linear(ch[nd[1]], nd[2]))
                 elif k == 'bn':
-                    setattr(s, 'n%d' % i, nn.BatchNorm2d(ch[nd[1]]))
+                    setattr(s, 'n%d' % i, BN(ch[nd[1]]))
                 elif k == 'relu':
                     setattr(s, 'n%d' % i, nn.ReLU())
                 elif k == 'pool':
-                    setattr(s, 'n%d' % i, nn.AdaptiveAvgPool2d(1))
+                    setattr(s, 'n%d' % i, Pool(1))
                 elif k == 'flat':
                     setattr(s, 'n%d' % i, nn.Flatten())
 
@@ -143,7 +144,22 @@ GSPECS = {
     # a layer excluded from the search: the features of its producer and of what is added to its output are fixed
     'pit-excluded': dict(nodes=[('in', 3), ('conv', 0, 4, 3, {}), ('relu', 1), ('conv', 2, 4, 3, {}), ('conv', 2, 4, 1, {}), ('add', 3, 4),
                                 ('conv', 5, 6, 3, {}), ('relu', 6), ('pool', 7), ('flat', 8), ('lin', 9, 3)], out=10, excluded=[3]),
+    # 1-D temporal ResNet block: strided k=3 conv on the main path, strided POINTWISE (k=1, stride 2) shortcut, a second
+    # strided k=5 conv after the add; PIT cannot search rf / dilation of a strided Conv1d
+    'pit-tcn-res': dict(dim=1, nodes=[('in', 3), ('conv', 0, 4, 3, {}), ('relu', 1),
+                                      ('conv', 2, 6, 3, {'stride': 2}), ('relu', 3), ('conv', 4, 6, 5, {}),
+                                      ('conv', 2, 6, 1, {'stride': 2}), ('add', 5, 6), ('relu', 7),
+                                      ('conv', 8, 4, 5, {'stride': 2}), ('relu', 9), ('pool', 10), ('flat', 11), ('lin', 12, 3)],
+                        out=13, excluded=[]),
 }
+
+
+def strided_layers(spec):
+    """indices of the 1-D convolutions with stride != 1 (read from the node list): their receptive-field and dilation
+    masks are frozen by construction"""
+    if spec.get('dim', 2) != 1:
+        return []
+    return [i for i, nd in enumerate(spec['nodes']) if nd[0] == 'conv' and nd[4].get('stride', 1) != 1]
 
 
 def gnet_channels(nodes):
@@ -218,8 +234,9 @@ def build(name, E=None, seed=0):
     cost = {'p': E['params'], 'o': E['ops']}
     if name in GSPECS:
         sp = GSPECS[name]
-        m = E['PIT'](GNet(sp['nodes'], sp['out']), input_shape=(sp['nodes'][0][1], 8, 8), cost=cost, exclude_names=['n%d' % i for i in sp['excluded']])
-        x = torch.randn(2, sp['nodes'][0][1], 8, 8)
+        shape = (sp['nodes'][0][1], 16) if sp.get('dim', 2) == 1 else (sp['nodes'][0][1], 8, 8)
+        m = E['PIT'](GNet(sp['nodes'], sp['out'], sp.get('dim', 2)), input_shape=shape, cost=cost, exclude_names=['n%d' % i for i in sp['excluded']])
+        x = torch.randn(2, *shape)
     elif name.startswith('pit-tcn'):
         kw = dict(train_features=False, train_dilation=False, discrete_cost=True) if name.endswith('off') else {}
         m = E['PIT'](TCN(), input_shape=(3, 16), cost=cost, **kw)
@@ -545,3 +562,64 @@ def state_coq(S, a):
     f = [bool(v) for v in a['flags']]
     return ('{| tens := [%s]; layers := [%s]; samplers := [%s]; tr_feat := %s; tr_rf := %s; tr_dil := %s; tr_sel := %s; discrete := %s |}'
             % ('; '.join(tens), '; '.join(lays), '; '.join(samp), coq(f[0]), coq(f[1]), coq(f[2]), coq(f[3]), coq(f[4])))
+
+
+HAND_STRIDED = {'pit-tcn': ['c1'], 'pit-tcn-off': ['c1']}
+
+
+def strided_masks(proto, model, S):
+    """-> [(layer, 'beta' | 'gamma', index in S['names'] or None)] for the Conv1d layers that the network's own description
+    gives a stride != 1: receptive-field / dilation masks that the method freezes by construction"""
+    layers = ['n%d' % i for i in strided_layers(GSPECS[proto])] if proto in GSPECS else HAND_STRIDED.get(proto, [])
+    out = []
+    for ln in layers:
+        lay = model.get_submodule('seed.' + ln)
+        for mk, a in (('timestep_masker', 'beta'), ('dilation_masker', 'gamma')):
+            t = getattr(getattr(lay, mk), a)
+            hit = [k for k, n in enumerate(S['names']) if get_tensor(model, n) is t]
+            out.append((ln, a, hit[0] if hit else None))
+    return out
+
+
+def mask_update_probe(model, x, S):
+    """a mask reported trainable is effective: zeroing (all but its kept-alive element of) a trainable PIT mask with more
+    than one element must change the cost and the output of the layer(s) holding it (forward hooks).
+    -> [(tensor name, cost changed, layer output changed)]; values restored"""
+    import torch
+    if S['method'] != 'PIT':
+        return []
+    res = []
+    was = model.training
+    model.eval()
+    cs = model._cost_specification
+    ck = list(cs.keys()) if isinstance(cs, dict) else [None]
+
+    holders = {}      # tensor index -> names of the layers holding that mask
+    for l in S['layers']:
+        for key in ('feat', 'rf', 'dil'):
+            if l[key] is not None:
+                holders.setdefault(l[key], []).append(l['name'])
+    outs = {}
+    hooks = [model.get_submodule(l['name']).register_forward_hook(lambda mod, i, o, nm=l['name']: outs.__setitem__(nm, o.detach().clone())) for l in S['layers']]
+
+    def look():
+        with torch.no_grad():
+            outs.clear()
+            model(x)
+            return [float(model.get_cost(k)) for k in ck], dict(outs)
+    c0, y0 = look()
+    for k, n in enumerate(S['names']):
+        t = get_tensor(model, n)
+        if n.rsplit('.', 1)[1] not in ('alpha', 'beta', 'gamma') or not isinstance(t, torch.nn.Parameter) or not t.requires_grad or t.numel() < 2:
+            continue
+        old = t.detach().clone()
+        with torch.no_grad():
+            t.zero_()
+        c1, y1 = look()
+        with torch.no_grad():
+            t.copy_(old)
+        res.append((n, c1 != c0, any(not torch.equal(y0[h], y1[h]) for h in holders.get(k, []))))
+    for h in hooks:
+        h.remove()
+    model.train(was)
+    return res
